@@ -77,6 +77,10 @@ func c17Check(c c17Case) vfResult {
 				r.Err = fmt.Errorf("at limit %d Detect says %s but DetectReader says %s (err %v); x=%s", L, vfChainStr(m), vfChainStr(mr), err, vfQ(x))
 				return r
 			}
+			if err := vfRoutes(x, uint32(L), m); err != nil {
+				r.Err = fmt.Errorf("at limit %d: %v; x=%s", L, err, vfQ(x))
+				return r
+			}
 		}
 		if nt && firstNT < 0 {
 			firstNT = L
